@@ -38,7 +38,7 @@ def explore(pid: str, cfg_name: str, tier: str, seed: int) -> Dict[str, Any]:
     env = cfg.make()
     T = int(env.time_limit)
     mod = importlib.import_module(f"mc.checks.{pid.lower()}")
-    keys = cfg.keys(tier)
+    keys = cfg.keys(tier, env)
     st, ts = jax.jit(jax.vmap(env.reset))(jnp.stack([jax.random.PRNGKey(k) for k in keys]))
     A = all_actions(env.action_spec)
     if len(A) > 64:  # joint alphabets: a spread of 64 actions is enough to diversify the injected roots
